@@ -286,6 +286,7 @@ class Atoms:
     def __init__(self, values, enums):
         self.values = values
         self.enums = enums
+        self.inliner = None       # set by eval_predicate: evaluates calls of small workspace predicates under the same assignment
 
     def field_of(self, n):
         nm = leaf_name(strip(n)) or ""
@@ -326,11 +327,39 @@ class Atoms:
                 return "1" if res else "0"
         if n[0] == "k" and n[1] in ("true", "false"):
             return "1" if n[1] == "true" else "0"
+        if n[0] == "call" and self.inliner is not None:
+            return self.inliner(n)
         return None
 
 
-def eval_predicate(sc, atoms, maxsteps=80):
+def inline_predicate(prog, n, atoms, depth):
+    """value of a call of a workspace function returning bool, evaluated on its own body with the parameters bound to the
+    caller's argument nodes (helper predicates such as `w.is_exposed()`); None when it cannot be resolved"""
+    if depth > 3:
+        return None
+    ids = prog.callee_index().get(n[1], ())
+    if len(ids) != 1:
+        return None
+    fn = prog.fns[next(iter(ids))]
+    if fn.raw.get("ret") != "bool" or fn.body.argc != len(n[2]):
+        return None
+    sc = Scope(prog, fn, argmap={i + 1: a for i, a in enumerate(n[2])})
+    r = eval_predicate(sc, atoms, depth=depth + 1)
+    return "1" if r is True else "0" if r is False else None
+
+
+def eval_predicate(sc, atoms, maxsteps=80, depth=0):
     """evaluate a bool-returning body (closure) under an atom assignment by walking its CFG. -> True / False / ('stuck', text)"""
+    body = sc.body
+    prev = atoms.inliner
+    atoms.inliner = lambda n: inline_predicate(sc.prog, n, atoms, depth)
+    try:
+        return _eval_predicate(sc, atoms, maxsteps)
+    finally:
+        atoms.inliner = prev
+
+
+def _eval_predicate(sc, atoms, maxsteps):
     body = sc.body
     b = 0
     result = None
